@@ -17,7 +17,7 @@ import sys
 from concurrent.futures import ThreadPoolExecutor
 
 V = "/verif"
-OUT = "/var/tmp/automut"
+OUT = "/var/tmp/automut" + (sys.argv[3] if len(sys.argv) > 3 else "")
 JOBS = int(sys.argv[1]) if len(sys.argv) > 1 else 6
 PER_FILE = int(sys.argv[2]) if len(sys.argv) > 2 else 40
 
@@ -124,12 +124,13 @@ def one(args):
 def main():
     os.makedirs(OUT, exist_ok=True)
     subprocess.run(["sh", "-c", f"cd {V}/lean && lake build >/dev/null 2>&1"], check=True)
+    batch = int(sys.argv[3]) if len(sys.argv) > 3 else 0          # batch k takes the k-th slice of the shuffled candidates
     rng = random.Random(12345)
     todo = []
     for f in FILES:
         c = candidates(f)
         rng.shuffle(c)
-        todo += c[:PER_FILE]
+        todo += c[batch * PER_FILE:(batch + 1) * PER_FILE]
     done = set()
     if os.path.exists(f"{OUT}/results.jsonl"):
         done = {json.loads(l)["id"] for l in open(f"{OUT}/results.jsonl")}
